@@ -250,8 +250,12 @@ def kernel_stream(ctx, rt, n_rand, seed):
     n = 0
     for i, (a, o) in enumerate(zip(ins, outs)):
         n += len(a) // digits
-        bad += judge_line(rt, digits, a, o, stats)
         m = mods[i] if i < len(mods) else ""
+        for (item, got, want, kind) in judge_line(rt, digits, a, o, stats):
+            k = a.find(item)
+            while k % digits:
+                k = a.find(item, k + 1)
+            bad.append((item, got, want, kind, m[k:k + digits]))
         if diff is None and m != o:
             for k in range(0, len(a), digits):
                 if o[k:k + digits] != m[k:k + digits]:
@@ -370,11 +374,11 @@ def helper_streams(ctx):
                 if impl[k * od:(k + 1) * od] != model[k * od:(k + 1) * od]:
                     problem = ("model", line[k * d:(k + 1) * d], impl[k * od:(k + 1) * od], model[k * od:(k + 1) * od])
                     break
-        outs[rt] = (line, impl)
+        outs[rt] = (line, impl, model)
         res.append([rt, n, problem, None])
     # predicate on the implementation's own answers: involution, put/get round trip
     for rt, d in (("swap16", 4), ("swap32", 8), ("swap64", 16)):
-        line, impl = outs[rt]
+        line, impl, model = outs[rt]
         if impl is None:
             continue
         back = run(rt, impl)
@@ -384,10 +388,10 @@ def helper_streams(ctx):
                     item = line[k:k + d]
                     for r in res:
                         if r[0] == rt:
-                            r[3] = ("involution", item, impl[k:k + d], (back or "")[k:k + d])
+                            r[3] = ("involution", item, impl[k:k + d], (back or "")[k:k + d], model[k:k + d])
                     break
     for put, get, d in (("put-be16", "get-be16", 4), ("put-be32", "get-be32", 8), ("put-be64", "get-be64", 16)):
-        line, impl = outs[put]
+        line, impl, model = outs[put]
         if impl is None:
             continue
         back = run(get, impl)
@@ -396,7 +400,7 @@ def helper_streams(ctx):
                 if back is None or back[k:k + d] != line[k:k + d]:
                     for r in res:
                         if r[0] == put:
-                            r[3] = ("get-after-put", line[k:k + d], impl[k:k + d], (back or "")[k:k + d])
+                            r[3] = ("get-after-put", line[k:k + d], impl[k:k + d], (back or "")[k:k + d], model[k:k + d])
                     break
     return res
 
@@ -459,14 +463,16 @@ def run_ieee(ctx):
             r["bad"].append(("(flush class)", "zero bytes", "native bits", "known-class-without-witness"))
         if r["bad"]:
             found_input = True
-            item, got, want, kind = r["bad"][0]
+            item, got, want, kind = r["bad"][0][:4]
+            if len(r["bad"][0]) > 4:
+                model_of[item] = r["bad"][0][4]
             note = ("a finite normal value is not serialised to its native bit pattern (%d such values in this stream, class: %s)" % (len(r["bad"]), kind))
             if kind == "known-class-without-witness":
                 ctx.violation("ieee-%s-flush" % name, "# C20: values in the flush class are written as zero but the witness of %s no longer shows its signature\n" % KF_ID, no_input=True)
             elif is_api:
-                ctx.violation("ieee-%s" % name, api_replay_text(r, item, got, want, model_of.get(item, "(agrees with the implementation)"), note))
+                ctx.violation("ieee-%s" % name, api_replay_text(r, item, got, want, model_of.get(item, "(not the first differing value of the model comparison)"), note))
             else:
-                ctx.violation("ieee-%s" % name, replay_text(name, item, got, want, model_of.get(item, "(agrees with the implementation)"), note))
+                ctx.violation("ieee-%s" % name, replay_text(name, item, got, want, model_of.get(item, "(not the first differing value of the model comparison)"), note))
         elif r["diff"]:
             broken.append((name, r["diff"], r))
     if results and "sample_in" in results[0]:
@@ -478,9 +484,9 @@ def run_ieee(ctx):
         ctx.coverage["traces_validated_against_impl"] += 1
         if pred:
             found_input = True
-            what, item, once, twice = pred
-            ctx.violation("ieee-%s-%s" % (rt, what), "# C20 (byte-order helpers): %s fails on the implementation: %s(%s) = %s, applying the inverse gives %s\n"
-                          "c20-ieee %s %s %s\n" % (what, rt, item, once, twice, rt, item, "(see text)"))
+            what, item, once, twice, want = pred
+            ctx.violation("ieee-%s-%s" % (rt, what), "# C20 (byte-order helpers): %s fails on the implementation: %s(%s) = %s, applying the inverse gives %s; the definition gives %s\n"
+                          "c20-ieee %s %s %s\n" % (what, rt, item, once, twice, want, rt, item, want))
         elif problem:
             if problem[0] == "crash":
                 found_input = True
